@@ -202,6 +202,7 @@ int64_t cmb_priorityqueue_get(struct cmb_priorityqueue *pqp, void **objectloc)
 {
     /* Waiting since now, also if it takes several rounds at the guard */
     const double waiting_since = cmb_time();
+    uint64_t arrival = 0u;
 
     cmb_assert_release(pqp != NULL);
     cmb_assert_release(objectloc != NULL);
@@ -235,7 +236,8 @@ int64_t cmb_priorityqueue_get(struct cmb_priorityqueue *pqp, void **objectloc)
         const int64_t sig = cmi_resourceguard_wait_since(&(pqp->front_guard),
                                                          has_content,
                                                          NULL,
-                                                         waiting_since);
+                                                         waiting_since,
+                                                         &arrival);
         if (sig == CMB_PROCESS_SUCCESS) {
             cmb_logger_info(stdout,"Trying again");
         }
@@ -258,6 +260,7 @@ int64_t cmb_priorityqueue_put(struct cmb_priorityqueue *pqp,
 {
     /* Waiting since now, also if it takes several rounds at the guard */
     const double waiting_since = cmb_time();
+    uint64_t arrival = 0u;
 
     cmb_assert_release(pqp != NULL);
 
@@ -290,7 +293,8 @@ int64_t cmb_priorityqueue_put(struct cmb_priorityqueue *pqp,
         const int64_t sig = cmi_resourceguard_wait_since(&(pqp->rear_guard),
                                                          has_space,
                                                          NULL,
-                                                         waiting_since);
+                                                         waiting_since,
+                                                         &arrival);
         if (sig == CMB_PROCESS_SUCCESS) {
             cmb_logger_info(stdout,"Trying again");
         }
